@@ -29,7 +29,7 @@ RULE = ("arrival sequences of 60-160 events over <= 40 distinct reliable packet 
         "retransmissions (same id, RESENT flag or not), reordered older ids, acks for the client's own reliable sends in both "
         "forms (appended to any packet, PacketAck block, PacketAck + appended), acks for ids never sent, clock advances of "
         "1 s / 3 s with resend_unacked(); subscribers at session and region level, named and wildcard. quick 8 x 60 "
-        "sequences, thorough 16 x 400. distinct_nontrivial = distinct event sequences (by kind and packet id) + distinct (kind, duplicate?, subscriber level) classes")
+        "sequences, thorough 16 x 3000. distinct_nontrivial = distinct event sequences (by kind and packet id) + distinct (kind, duplicate?, subscriber level) classes")
 ASSUMPTIONS = [
     "at most 40 distinct reliable ids per run (inside the 1000-entry de-duplication window)",
     "the peer's messages are template messages allowed over UDP; the session manager is a stub (no HTTP)",
@@ -348,7 +348,7 @@ def run(ctx):
         asyncio.get_event_loop_policy().get_event_loop()
     except Exception:
         asyncio.set_event_loop(asyncio.new_event_loop())
-    n = ctx.pick(60, 400)
+    n = ctx.pick(60, 3000)
     for i in range(n):
         if ctx.out_of_time():
             break
